@@ -41,6 +41,10 @@ def work(ctx, tier):
     n = (9000 if tier == "quick" else 250000) // ctx.nshards
     for k in range(n):
         sc = gen.rand_scenario(rng, p_special=0.04, specials=("abort", "nested_open"), p_budget=0.3, p_handler=0.4, p_abort=0.3, p_breaker=0.4, ncalls=(1, 4), placements=(k % 5 == 0))
+        if k % 6 == 0:
+            # a raising metric hook must not make the three sinks disagree
+            sc["fault"] = {"kind": "hook", "hook": "metric", "at": rng.choice([0, 1, 2, "always"]), "exc": rng.choice(["RuntimeError", "ValueError", "KeyError"])}
+            ctx.inc("scenarios_with_raising_metric_hook")
         for e in common.pick_entries(rng, rig.ENTRIES, 3):
             _one(ctx, sc, e, stats, sample=(k < 2 and ctx.shard == 0))
         ctx.inc("random_scenarios")
@@ -54,6 +58,30 @@ def work(ctx, tier):
         for e in common.pick_entries(rng, rig.BREAKER_ENTRIES, 2):
             _one(ctx, sc, e, stats)
         ctx.inc("breaker_history_scenarios")
+    # degenerate configuration max_attempts=0: execute() still "ends normally" (a not-ok outcome) and must explain itself with one terminal event
+    for e in rig.EXECUTE_ENTRIES:
+        if hash(e) % ctx.nshards != ctx.shard:
+            continue
+        for tl in (False, True, "obj"):
+            sc = {"cfg": gen.mk_cfg(max_attempts=0, operation="opname"), "place": gen.default_place(), "bs_kind": "sync", "sleeper_kind": "async", "timeline": tl, "poll": False,
+                  "calls": [gen.mk_call([["ok"]])], "fault": None}
+            recs, h, w = rig.run(sc, e)
+            ctx.inc("runs")
+            ctx.inc("calls")
+            ctx.inc("zero_attempt_runs")
+            rec = recs[0]
+            kind, val = rec.final
+            if kind != "return":
+                continue  # call()-style RuntimeError for max_attempts=0 is outside every property
+            mets = [x for x in rec.trace if x[0] == "metric"]
+            logs = [x for x in rec.trace if x[0] == "log"]
+            terms = [m for m in mets if m[1] in TERMINALS]
+            if len(terms) != 1 or len(mets) != 1:
+                ctx.viol("missing-terminal" if not terms else "double-terminal", f"[{e}] max_attempts=0: execute() returned {val!r} with metric events {[m[1] for m in mets]}", common.payload(sc, e, 0))
+            elif len(logs) != 1 or logs[0][1] != mets[0][1]:
+                ctx.viol("log-metric-count-differs", f"[{e}] max_attempts=0: metric {[m[1] for m in mets]} vs log {[l[1] for l in logs]}", common.payload(sc, e, 0))
+            elif tl and (val.timeline is None or [t.event for t in val.timeline.events] != [mets[0][1]]):
+                ctx.viol("timeline-count-differs", f"[{e}] max_attempts=0: timeline {val.timeline} vs metric {[m[1] for m in mets]}", common.payload(sc, e, 0))
     if tier != "quick":
         common.repo_suite_under_monitors(ctx, "events")
     common.flush_stats(ctx, stats)
@@ -67,6 +95,7 @@ def conclude(ctx):
     floors["timelines_checked"] = (ctx.cnt["timelines_checked"], 500)
     floors["breaker_events_checked"] = (ctx.cnt["breaker_events_checked"], 500)
     floors["retry_events"] = (ctx.cnt["retry_events"], 3000)
+    floors["scenarios_with_raising_metric_hook"] = (ctx.cnt["scenarios_with_raising_metric_hook"], 100)
     return dict(
         rule=(
             "sweep + random scenarios (all stop reasons, causes, abort points, handler decisions, timelines as bool/object) over 20 entry points + policy-level breaker histories "
